@@ -901,6 +901,13 @@ func (p *Prog) envStep(s ast.Stmt, cur ienv) ienv {
 						} else if sel, isSel := call.Fun.(*ast.SelectorExpr); isSel && len(call.Args) == 1 {
 							// v.mul64(K): top word <= (top+1)·K - 1 when that still fits a word
 							cn := p.calleeName(call)
+							if dot := strings.Index(cn, "."); dot > 0 && strings.HasPrefix(cn, "uint") && cn[dot+1:] == "add" {
+								// a.add(b) of two n-limb values returns n+1 limbs: the top one is the carry
+								nr := limbsOf(p.typeOf(l))
+								if na := limbsOf(p.typeOf(sel.X)); nr == na+1 {
+									out[k+"["+itoa(nr-1)+"]"] = ival{lo: big.NewInt(0), hi: big.NewInt(1)}
+								}
+							}
 							if dot := strings.Index(cn, "."); dot > 0 && strings.HasPrefix(cn, "uint") && cn[dot+1:] == "add64" {
 								// v.add64(c) raises the top word by at most one carry (a subtraction may borrow through zero: no bound)
 								n := limbsOf(p.typeOf(sel.X))
